@@ -1347,6 +1347,20 @@ def R3_errors_become_responses(ctx):
             b = F.bodies[p]
             rt = unmut_all(nosite(deep_strip(Terms(b).return_term())))
             ctx.check(rt[0] == "agg" and rt[1] == "serde_json::value::Value" and rt[2] == "Object", "responses-are-objects:%s" % short_fn_name(p), "package_error does not return a JSON object", b.where(), detail="Value::Object")
+    # where a *query of the batch* is rejected for its JSON type (json_array_flatten: the element is not an object) the error
+    # response must carry that query as its request: package_invariant_error(query = Some(rejected value), ..).  With query = None
+    # the response's request is the placeholder {"error": "unable to display query"} (fixed defect 486f514: with no input plugin
+    # configured every ill-typed query of a batch was answered that way)
+    for fn_ in ("json_array_flatten",):
+        fb = F.need("routee_compass::plugin::input::input_plugin_ops::" + fn_)
+        ftm = Terms(fb)
+        sites = [c for c in fb.calls_deep() if (c.callee or "").endswith("input_plugin_ops::package_invariant_error")]
+        ctx.check(len(sites) >= 1, "%s:rejects-with-a-response" % fn_, "%s no longer builds its error responses with package_invariant_error" % fn_, fb.where())
+        for c in sites:
+            a0 = clean(c.arg_terms[0]) if isinstance(c, VirtualCallSite) else clean(ftm.operand(c.args[0], c.bb))
+            alts = list(a0[1]) if a0[0] == "phi" else [a0]
+            somes = [x for x in alts if x[0] == "agg" and x[2] == "Some"]
+            ctx.check(bool(somes), "%s:rejected-query-echoed" % fn_, "%s answers a rejected query with package_invariant_error(None, ..): the response's `request` is a placeholder instead of the query (%s)" % (fn_, short(a0)[:100]), c.where(), detail="package_invariant_error(Some(rejected value), ..)")
     pi = F.need("routee_compass::plugin::input::input_plugin_ops::package_invariant_error")
     rt = unmut_all(nosite(deep_strip(Terms(pi).return_term())))
     alts = list(rt[1]) if rt[0] == "phi" else [rt]
